@@ -13,20 +13,33 @@ structure Env where
   c0 : Nat → Coords
   cS : Nat → Coords
   tF : Nat → Table
+  targets : Nat → Nat → Prop := fun _ _ => False   -- `targets kid id`: the key `kid` may refer to the point object `id`
+
+/-- the pointer cell of a key may be overwritten at any time (by an allowed value): a *free* cell; the cells of a point
+move once to their canonical value -/
+def Env.free (_ : Env) : Cell → Prop
+  | (_, .point) => True
+  | _ => False
 
 /-- the values a cell may hold -/
 def Env.good (E : Env) : Cell → Val → Prop
   | (id, .coords), v => v = .coords (E.c0 id) ∨ v = .coords (E.cS id)
   | (id, .pre), v => v = .table [] ∨ v = .table (E.tF id)
+  | (kid, .point), v => ∃ t, E.targets kid t ∧ v = .ptr t
 
-/-- the canonical value of a cell: the scaled triple / the complete table -/
+/-- the canonical value of a cell: the scaled triple / the complete table (none for a pointer cell) -/
 def Env.canon (E : Env) : Cell → Val
   | (id, .coords) => .coords (E.cS id)
   | (id, .pre) => .table (E.tF id)
+  | (_, .point) => .table []
 
-theorem Env.good_canon (E : Env) : ∀ k, E.good k (E.canon k)
-  | (id, .coords) => Or.inr rfl
-  | (id, .pre) => Or.inr rfl
+theorem Env.good_canon (E : Env) : ∀ k, ¬ E.free k → E.good k (E.canon k)
+  | (id, .coords), _ => Or.inr rfl
+  | (id, .pre), _ => Or.inr rfl
+  | (_, .point), h => absurd trivial h
+
+theorem Env.not_free_coords (E : Env) (id : Nat) : ¬ E.free (id, .coords) := fun h => h
+theorem Env.not_free_pre (E : Env) (id : Nat) : ¬ E.free (id, .pre) := fun h => h
 
 def isInfC (c : Coords) : Bool := c.2.1 == 0 || c.2.2 == 0
 
@@ -43,7 +56,8 @@ structure ObjOK (E : Env) (id : Nat) : Prop where
     Curve.precomputeTable (mkPJ (E.info id) (E.cS id)) = .ok (E.tF id) ∧ (E.tF id).isEmpty = false
   table_nogen : (E.info id).generator = false → E.tF id = []
 
-abbrev SafeE (E : Env) (acc : Res Out → Prop) (ph : Phases Cell) (p : P) : Prop := Safe E.good E.canon acc ph p
+abbrev SafeE (E : Env) (acc : Res Out → Prop) (ph : Phases Cell) (p : P) : Prop :=
+  Safe E.free E.good E.canon acc ph p
 
 theorem scaleS {E : Env} {id : Nat} (h : ObjOK E id) :
     Curve.pjScale (mkPJ (E.info id) (E.cS id)) = .ok (mkPJ (E.info id) (E.cS id)) := by
@@ -98,7 +112,7 @@ theorem safe_read_coords {E : Env} {id : Nat} {ph : Phases Cell} {acc : Res Out 
     (h0 : ph (id, .coords) = .any → E.c0 id ≠ E.cS id → SafeE E acc ph (cont (.coords (E.c0 id))))
     (hS : SafeE E acc (ph.set (id, .coords)) (cont (.coords (E.cS id)))) :
     SafeE E acc ph (.read (id, .coords) cont) := by
-  apply Safe.read
+  apply Safe.read (E.not_free_coords id)
   · intro hph v hg hne
     have hv := good_coords_ne hg hne
     subst hv
@@ -112,7 +126,7 @@ theorem safe_read_pre {E : Env} {id : Nat} {ph : Phases Cell} {acc : Res Out →
     (h0 : ph (id, .pre) = .any → E.tF id ≠ [] → SafeE E acc ph (cont (.table [])))
     (hS : SafeE E acc (ph.set (id, .pre)) (cont (.table (E.tF id)))) :
     SafeE E acc ph (.read (id, .pre) cont) := by
-  apply Safe.read
+  apply Safe.read (E.not_free_pre id)
   · intro hph v hg hne
     have hv := good_pre_ne hg hne
     subst hv
@@ -126,13 +140,13 @@ theorem safe_write_coords {E : Env} {id : Nat} {ph : Phases Cell} {acc : Res Out
     (hc : c = E.cS id) (h : SafeE E acc (ph.set (id, .coords)) cont) :
     SafeE E acc ph (.write (id, .coords) (.coords c) cont) := by
   subst hc
-  exact Safe.write h
+  exact Safe.write (E.not_free_coords id) h
 
 theorem safe_write_pre {E : Env} {id : Nat} {ph : Phases Cell} {acc : Res Out → Prop} {cont : P} {t : Table}
     (hc : t = E.tF id) (h : SafeE E acc (ph.set (id, .pre)) cont) :
     SafeE E acc ph (.write (id, .pre) (.table t) cont) := by
   subst hc
-  exact Safe.write h
+  exact Safe.write (E.not_free_pre id) h
 
 theorem set_canon (ph : Phases Cell) (k : Cell) : ¬ (ph.set k k = .any) := by simp [Phases.set]
 
@@ -140,17 +154,15 @@ theorem op_safe_x (E : Env) (id : Nat) (ph : Phases Cell) :
     SafeE E (fun r => r = seqX (E.info id) (E.c0 id) ∨ r = seqX (E.info id) (E.cS id)) ph
       (toProg (mX E.info) { self := id }) := by
   simp only [toProg, mX, den, loadA, Loc.obj, bindRes_ret, bindRes_ok]
-  apply Safe.read
-  · intro _ v hg hne
-    have hv := good_coords_ne hg hne
-    subst hv
+  apply safe_read_coords
+  · intro _ _
     simp only [asCoords]
     by_cases hz : (E.c0 id).2.2 = 1
     · simp only [hz, beq_self_eq_true, if_true]
       exact Safe.ret (Or.inl (by simp [seqX, pjX_z1 _ _ hz, Except.map]))
     · simp only [beq_iff_eq, hz, if_false]
       exact Safe.ret (Or.inl rfl)
-  · simp only [Env.canon, asCoords]
+  · simp only [asCoords]
     by_cases hz : (E.cS id).2.2 = 1
     · simp only [hz, beq_self_eq_true, if_true]
       exact Safe.ret (Or.inr (by simp [seqX, pjX_z1 _ _ hz, Except.map]))
